@@ -252,7 +252,7 @@ def nontrivial(c, i):
 
 
 def gen(rng, tier):
-    scale = 1 if tier == 'quick' else 20
+    scale = 1 if tier == 'quick' else 60
     grid = load_grid()
     # 1. exhaustive tiny digit strings
     for c in exhaustive_digits():
@@ -308,7 +308,7 @@ def gen(rng, tier):
             for s in fromstr_cases(rng, bits):
                 yield 'fs %d %s' % (bits, tx(s))
     # 8. formatting grid
-    nv = 3 if tier == 'quick' else 40
+    nv = 3 if tier == 'quick' else 100
     for bits in WIDTHS_MAIN + [63, 127, 129, 192]:
         for tr, spec in grid:
             n = nv if bits in (64, 128, 256, 192) else max(1, nv // 3)
